@@ -11,8 +11,8 @@ LEVEL_TEXT = ("Lean model of tokenize/tokensConsume/parseTokens/makeSelect/Where
               "indexing explicit; theorems: the parser never panics on any byte string, clause-level parse theorems and "
               "rejection theorems; tied to the code by a differential run of the real mapr.NewQuery (full dump of the "
               "parsed structure) on rendered abstract queries in every surface variation and on mutations of them; the "
-              "property oracle compares the implementation's dump with the denotation of the abstract query; tie G (panic-aware): token.go, selectcondition.go, wherecondition.go (parse / fill), setcondition.go and the parser of query.go (parseTokens, parse, NewQuery) are translated to Lean from the working tree on every run with every index and slice expression guarded (a panic is a value of the translated function), and the driver evaluates the translated NewQuery beside the hand-written model on every case: three-way agreement real code = translated code = model")
-TRUSTED = ["Lean 4 kernel", "axioms: propext, Quot.sound, Classical.choice (at most)", "overlay harness + dtmodel driver + this diff",
+              "property oracle compares the implementation's dump with the denotation of the abstract query; tie G (panic-aware): token.go, selectcondition.go, wherecondition.go (parse / fill), setcondition.go and the parser of query.go (parseTokens, parse, NewQuery) are translated to Lean from the working tree on every run with every index and slice expression guarded (a panic is a value of the translated function), and the driver evaluates the translated NewQuery beside the hand-written model on every case: three-way agreement real code = translated code = model; C11_generated_parser_never_panics / C11_generated_clause_parsers_never_panic: proved about the translated functions themselves (Lemmas/GenQuery.lean: loop rules with invariants and a decreasing measure, the guards discharged from the length checks the code makes)")
+TRUSTED = ["the Go-to-Lean translator extract/translate.go in panic-aware mode and its prelude Model/GoRT.lean (goInRange / goSliceOk state when Go's x[i] / x[lo:hi] panic, for strings and for slices that were never longer than they are; for-cond loops run on fuel; strings.ToLower / ToUpper / EqualFold as far as comparisons with ASCII words go; strconv and funcs.NewFunctionStack are parameters)", "Lean 4 kernel", "axioms: propext, Quot.sound, Classical.choice (at most)", "overlay harness + dtmodel driver + this diff",
            "modelled not verified: strconv.ParseFloat (oracle table computed by the real function), unicode.IsSpace / ToLower / ToUpper "
            "(byte-level model: ASCII plus the runes that matter for keyword comparison; table names are kept ASCII)",
            "the denotation of an abstract query is computed by the generator (Python), independent of model and implementation"]
